@@ -386,6 +386,22 @@ pub fn build(ctx: &Ctx) -> Property {
     claims_carrier::<crate::backends::V3L>(&mut p);
     claims_carrier::<crate::backends::V4>(&mut p);
     claims_carrier::<crate::backends::V4S>(&mut p);
+    // two-step histories on a fresh thread (state kept between calls), over selected cases of the round-trip subs
+    macro_rules! seq {
+        ($V:ty) => {
+            for sub in ["local/encrypt", "public/sign"] {
+                let name = format!("{}/{sub}", <$V as crate::backends::Full>::NAME);
+                let len = p.subs.iter().find(|s| s.name == name).map(|s| s.len).unwrap_or(0);
+                crate::perturb::add_sequences::<$V>(&mut p, &name, crate::perturb::spread(len, 4));
+            }
+        };
+    }
+    seq!(crate::backends::V1);
+    seq!(crate::backends::V2);
+    seq!(crate::backends::V3);
+    seq!(crate::backends::V3L);
+    seq!(crate::backends::V4);
+    seq!(crate::backends::V4S);
     // "every value the signature scheme can produce, including r, s with leading zero bytes":
     // aws-lc's ECDSA nonce is chosen through the cfg(paseto_verif) seam so that every width class is reached
     p.subs.push(crate::c03::ecdsa_nonce_sub(ctx));
